@@ -32,3 +32,20 @@ func MutantsFor(prop string) []Mutant {
 	}
 	return out
 }
+
+// SilentMutants are behaviour-preserving rewrites: the property still holds, so the named
+// property's rules must stay silent on them (Expect is unused). They guard against rules
+// that key on today's spelling of the code.
+var SilentMutants = []Mutant{}
+
+func addSilent(ms ...Mutant) { SilentMutants = append(SilentMutants, ms...) }
+
+func SilentFor(prop string) []Mutant {
+	var out []Mutant
+	for _, m := range SilentMutants {
+		if m.Prop == prop {
+			out = append(out, m)
+		}
+	}
+	return out
+}
